@@ -240,8 +240,19 @@ func genVec(r *hx.Rng, names ...string) string {
 	return "{" + strings.Join(parts, ",") + "}"
 }
 
-// genMessage: an update message for the parameter type with the given tag (mostly valid)
+// genMessage: an update message for the parameter type with the given tag (mostly valid), in one of the
+// many spellings the wire format allows for the value (encodings.go)
 func genMessage(r *hx.Rng, tag string) []byte {
+	msg := genCanonicalMessage(r, tag)
+	if r.Chance(1, 2) {
+		msg = respellFor(r, tag, msg)
+	}
+	return msg
+}
+
+var imageKinds = map[string]int{} // distribution bookkeeping: kinds of image uploads generated
+
+func genCanonicalMessage(r *hx.Rng, tag string) []byte {
 	if r.Chance(1, 14) && tag != "file" {
 		return []byte(hx.Pick(r, []string{"", "{", "nope", "[1,", "\"unterminated"}))
 	}
@@ -275,6 +286,9 @@ func genMessage(r *hx.Rng, tag string) []byte {
 	case "aabb":
 		return []byte(fmt.Sprintf(`{"center":%s,"extents":%s}`, genVec(r, "x", "y", "z"), genVec(r, "x", "y", "z")))
 	case "color":
+		if r.Chance(1, 12) { // tokens of other lengths: refused, or read leniently (the decoder slices by position)
+			return []byte(hx.Pick(r, []string{`""`, `"#"`, `"#12345"`, `"#1234567"`, `"fff"`, `"#ggg"`, `"#1234567890"`}))
+		}
 		switch r.Intn(4) {
 		case 0:
 			return []byte(fmt.Sprintf("\"#%02x%02x%02x%02x\"", r.Intn(256), r.Intn(256), r.Intn(256), r.Intn(256)))
@@ -285,6 +299,12 @@ func genMessage(r *hx.Rng, tag string) []byte {
 		}
 		return []byte(fmt.Sprintf("\"#%02x%02x%02x\"", r.Intn(256), r.Intn(256), r.Intn(256)))
 	case "file":
+		switch r.Intn(12) { // bytes that look like something else
+		case 0:
+			return []byte(hx.Pick(r, []string{"null", "\"text\"", "{\"a\":1}", " 1.0 ", "\xef\xbb\xbfbom", "line\r\nline\n"}))
+		case 1:
+			return genPNG(r)
+		}
 		n := hx.Pick(r, []int{0, 1, 2, 3, 5, 8, 17, 40})
 		b := make([]byte, n)
 		for i := range b {
@@ -292,7 +312,9 @@ func genMessage(r *hx.Rng, tag string) []byte {
 		}
 		return b
 	case "image":
-		return genPNG(r)
+		m, kind := genImageMessage(r)
+		imageKinds[kind]++
+		return m
 	case "strs":
 		switch r.Intn(4) {
 		case 0:
@@ -510,7 +532,11 @@ func (g *gen) randomOp() {
 		g.do(Op{K: "producer", ID: hx.Pick(r, cands).id, S: name})
 	case w < 95: // set metadata
 		p := g.genMetaPath()
-		if g.do(Op{K: "setmeta", S: p, V: genMetaValue(r, 2)}) {
+		mv := genMetaValue(r, 2)
+		if r.Chance(1, 2) { // the request body in another spelling (the server decodes it with encoding/json)
+			mv = string(respell(r, []byte(mv), true, true, false))
+		}
+		if g.do(Op{K: "setmeta", S: p, V: mv}) {
 			g.paths = append(g.paths, p)
 		}
 	case w < 97: // delete metadata
@@ -550,7 +576,68 @@ func genHist(r *hx.Rng, run *hx.Run, i int) histDesc {
 	g := newGen(r)
 	d := histDesc{AppName: hx.Pick(r, []string{"", "Graph", "ünï"}), AppVersion: hx.Pick(r, []string{"", "v0.0.1"}),
 		AppDesc: hx.Pick(r, []string{"", "a description"})}
-	switch i % 3 {
+	switch i % 4 {
+	case 3: // wire encodings: parameters of every type, each updated a few times, all feeding artifacts
+		de := g.create("describe")
+		jn := g.create("join")
+		sm := g.create("sum")
+		tags := append([]string{"image", "image", "str", "f64"}, paramTags...)
+		for _, k := range r.Perm(len(tags))[:r.Range(4, 10)] {
+			tag := tags[k]
+			n := g.create(tag)
+			for u, m := 0, hx.Pick(r, []int{1, 1, 1, 2, 3}); u < m; u++ {
+				msg := genCanonicalMessage(r, tag)
+				if !r.Chance(1, 5) {
+					msg = respellFor(r, tag, msg)
+				}
+				g.do(Op{K: "update", ID: n.id, Msg: b64(msg)})
+			}
+			if r.Chance(1, 4) {
+				g.do(Op{K: "desc", ID: n.id, S: genString(r)})
+			}
+			switch tag {
+			case "f64":
+				g.connect(n, sm, tyTable[sm.ti].Ports[2])
+			case "str":
+				if r.Chance(1, 2) {
+					g.connect(n, jn, tyTable[jn.ti].Ports[2]) // Parts
+				} else {
+					g.connect(n, de, tyTable[de.ti].Ports[7]) // Texts
+				}
+			case "image":
+				if r.Chance(1, 2) {
+					ia := g.create("imageart")
+					g.connect(n, ia, tyTable[ia.ti].Ports[0])
+					g.do(Op{K: "producer", ID: ia.id, S: n.id + ".png"})
+					continue
+				}
+				fallthrough
+			default:
+				for _, p := range tyTable[de.ti].Ports {
+					if !p.Array && p.VT == tyTable[n.ti].Out {
+						g.connect(n, de, p)
+					}
+				}
+				if tag == "bool" {
+					g.connect(n, jn, tyTable[jn.ti].Ports[0])
+				}
+				if tag == "file" {
+					bn := g.create("binary")
+					g.connect(n, bn, tyTable[bn.ti].Ports[0])
+					g.do(Op{K: "producer", ID: bn.id, S: n.id + ".bin"})
+				}
+			}
+		}
+		g.connect(sm, jn, tyTable[jn.ti].Ports[1])
+		for _, src := range []*gnode{de, jn} {
+			t := g.create("text")
+			g.connect(src, t, tyTable[t.ti].Ports[0])
+			g.do(Op{K: "producer", ID: t.id, S: src.id + ".txt"})
+		}
+		for k, m := 0, r.Range(0, 8); k < m; k++ {
+			g.randomOp()
+		}
+		run.Count("flavour:encodings")
 	case 0: // general
 		n := r.Range(2, 8)
 		for k := 0; k < n; k++ {
@@ -746,6 +833,7 @@ func widthBoundaryHistories() []histDesc {
 func fixedHistories() []histDesc {
 	out := []histDesc{hist()}
 	out = append(out, widthBoundaryHistories()...)
+	out = append(out, encodingHistories()...)
 	// 11 and 12 connections on one array input, distinct values (DESIGN.md §5 entry 13)
 	for _, n := range []int{11, 12, 25} {
 		ops := []Op{{K: "create", Ty: "sum"}}
